@@ -339,8 +339,9 @@ def gen_hist_case(rng, tier, elem=False):
     pools = [coord_pool(rng, a, extra=3) for a in axes]
     nf = rng.randint(25, 60) if dim > 1 else rng.randint(30, 70)
     fills = []
+    odd_forms = rng.random() < (0.1 if elem else 0.25)     # cases that also try coordinates of the wrong form
     for _ in range(nf):
-        r = rng.random()
+        r = rng.random() if odd_forms else 1.0
         xs = []
         for k in range(dim):
             if rng.random() < 0.45 and len(axes[k]) > 1:
